@@ -43,7 +43,7 @@ var robustExtremes = []interface{}{
 
 var robustPaths = []string{"", ".", "a.", ".a", "a..b", "a.0", "a.-1", "a.+1", "a.01", "a.9223372036854775807", "a.9223372036854775808",
 	"a.99999999999999999999", "a.$", "a.$[]", "$[x]", "a.$[x].b", "a.$[].$[]", "a.$[x", "$", "$.a", "a.$.b.$", "_id", "_id.a", "a.b.c.d",
-	"a.1000", "a.b", "a", "b", "x.0.a", "a.1600000", "a.1000000000000", "a.5000000.b", "a.0.4000000"}
+	"a.1000", "a.b", "a", "b", "x.0.a", "a.1600000", "a.1000000000000", "a..b1", ".x1", "v2..x", "a1..", "..1", "a.1..b", "9..a", "a.5000000.b", "a.0.4000000"}
 
 // Generated since the repairs dd0d6c6 / 01b6335 (before them the process did not survive: both were C20 findings):
 //   * array indexes far beyond the array ("a.1000000000000"): bsonkit.put padded with nil in an unbounded append loop
